@@ -1,8 +1,8 @@
 (* Model of the WHOLE function tensorly/solvers/admm.py `admm` (Model/Nnls.v admm_none is only its n_const=None
    branch): rho, the loop `for iteration in range(n_iter_max)`, x_split by tl.solve, the call of proximal_operator with
    admm's n_const / order (order None read as 0 since /repo a5b9e5b; incl. the ways that call raises), the early return of the n_const=None branch, the dual
-   update, the two residuals and the stopping rule, and the final `return x, x_split, dual_var` (x_split is unbound
-   when the loop body never ran).  Written once over a record of field operations (executed at Qops, proved at Rops).
+   update, the two residuals and the stopping rule, and the final `return x, x_split, dual_var` (x_split = x^T is bound
+   before the loop since /repo fe4edf7; before, it was unbound when the loop body never ran).  Written once over a record of field operations (executed at Qops, proved at Rops).
    tl.solve is an argument (contract hypothesis in the theorems; exact elimination in the correspondence).
    The proximal operator enters through the selection made by validate_constraints for ONE scalar constraint (or
    none); the elementwise operators below are, definition for definition, those of the C12 model Model/Prox.v
@@ -113,15 +113,16 @@ Fixpoint admm_trace (fuel : nat) (x : mat) (xs : option mat) (dual : mat) : list
 End Loop.
 
 (* admm(UtM, UtU, x, dual_var, n_iter_max, n_const, order, <one scalar constraint or none>, tol).
-   Err = the call raises: n_iter_max = 0 (`return x, x_split, dual_var` with x_split never bound: UnboundLocalError), or
-   proximal_operator raises in the first iteration (order >= n_const: IndexError).
+   Repaired code (/repo fe4edf7): `x_split = tl.transpose(x)` is bound before the loop, so with n_iter_max = 0 the call returns
+   (x, x^T, dual_var); before, `return x, x_split, dual_var` raised UnboundLocalError (flag zero_raises = true: the old rule).
+   Err = the call raises: proximal_operator raises in the first iteration (order >= n_const: IndexError).
    n_const None: the first iteration computes x_split, discards the (identity) proximal step, solves the normal
    equations and returns.  `pc` is the model of the proximal_operator call (prox_call; prox_call_before_a5b9e5b for the old rule). *)
-Definition admm_with (pc : option nat -> option nat -> constr -> mat -> res mat)
+Definition admm_gen (zero_raises : bool) (pc : option nat -> option nat -> constr -> mat -> res mat)
            (solve : mat -> mat -> mat) (n_const order : option nat) (k : constr)
            (UtM UtU x dual : mat) (m r : nat) (n_iter_max : nat) (tol : F) : res (mat * mat * mat) :=
   match n_iter_max with
-  | O => Err
+  | O => if zero_raises then Err else Ok (x, mtranspose Op r x, dual)
   | S _ =>
     match n_const with
     | None => Ok (mtranspose Op m (solve (mtranspose Op r UtU) (mtranspose Op r UtM)),
@@ -130,14 +131,15 @@ Definition admm_with (pc : option nat -> option nat -> constr -> mat -> res mat)
       match pc n_const order k x with    (* only whether the call raises depends on (n_const, order) *)
       | Err => Err
       | Ok _ =>
-        match admm_loop solve (apply_constr k) UtM UtU m r tol n_iter_max x None dual with
+        match admm_loop solve (apply_constr k) UtM UtU m r tol n_iter_max x (Some (mtranspose Op r x)) dual with
         | (x', Some xs', dual') => Ok (x', xs', dual')
-        | (_, None, _) => Err
+        | (_, None, _) => Err             (* unreachable: x_split is bound before the loop *)
         end
       end
     end
   end.
-Definition admm := admm_with prox_call.
-Definition admm_before_a5b9e5b := admm_with prox_call_before_a5b9e5b.
+Definition admm := admm_gen false prox_call.
+Definition admm_before_fe4edf7 := admm_gen true prox_call.
+Definition admm_before_a5b9e5b := admm_gen true prox_call_before_a5b9e5b.
 
 End M.
